@@ -319,3 +319,60 @@ func H_C04_scaler(v *zzverif.T) {
 		v.AssertTensor("C04.scaler-values", r.Outs[0], shape, want)
 	}
 }
+
+func init() {
+	zzverif.Register("opset13.H_C04_matmul_int", H_C04_matmul_int)
+	zzverif.Register("opset13.H_C04_linreg_ragged", H_C04_linreg_ragged)
+}
+
+// H_C04_matmul_int: integer operands are computed exactly (wrapping two's complement arithmetic) or refused;
+// never answered with something else. case: n (vector length: the product is a dot product), dtype "int64"|"int32"
+func H_C04_matmul_int(v *zzverif.T) {
+	n := v.CInt("n")
+	run := func(A, B tensor.Tensor, want interface{}) {
+		r := zzRun(v, "MatMul", nil, []tensor.Tensor{A, B})
+		v.Assert("C04.no-panic", !r.Panicked)
+		if r.Panicked || r.Err != nil {
+			return // refused: allowed
+		}
+		v.Assert("C04.integer-product-has-one-output", len(r.Outs) == 1)
+		if len(r.Outs) == 1 {
+			v.AssertTensor("C04.integer-matmul-values-are-exact", r.Outs[0], []int{}, want)
+		}
+	}
+	if v.CStr("dtype") == "int32" {
+		a, b := zzverif.Syms[int32](v, "a", n), zzverif.Syms[int32](v, "b", n)
+		var s int32
+		for i := range a {
+			s += a[i] * b[i]
+		}
+		run(zzverif.NewTensor(a, []int{n}), zzverif.NewTensor(b, []int{n}), []int32{s})
+		return
+	}
+	a, b := zzverif.Syms[int64](v, "a", n), zzverif.Syms[int64](v, "b", n)
+	var s int64
+	for i := range a {
+		s += a[i] * b[i]
+	}
+	run(zzverif.NewTensor(a, []int{n}), zzverif.NewTensor(b, []int{n}), []int64{s})
+}
+
+// H_C04_linreg_ragged: a coefficient list whose length is not a multiple of targets describes no matrix:
+// the node is refused (at Init or at Apply), not answered. case: ncoef, targets
+func H_C04_linreg_ragged(v *zzverif.T) {
+	v.Ring()
+	nc, t := v.CInt("ncoef"), v.CInt("targets")
+	coef := zzverif.Syms[float32](v, "w", nc)
+	attrs := []*onnx.AttributeProto{zzAttrFloats("coefficients", append([]float32(nil), coef...)), zzAttrI("targets", int64(t))}
+	f := nc / t
+	if f < 1 {
+		f = 1
+	}
+	xs := zzverif.Syms[float32](v, "x", f)
+	r := zzRun(v, "LinearRegressor", attrs, []tensor.Tensor{zzverif.NewTensor(xs, []int{1, f})})
+	v.Assert("C04.no-panic", !r.Panicked)
+	if r.Panicked {
+		return
+	}
+	v.Assert("C04.linreg-ragged-coefficients-are-refused", r.Err != nil)
+}
